@@ -33,7 +33,7 @@ type c18Params struct {
 func (c18) ID() string    { return "C18" }
 func (c18) Level() string { return "fault_enumeration" }
 func (c18) Rule() string {
-	return "enumerates hostile ClientHello behaviours against real DTLCP servers whose private keys are counting wrappers: repeated cookie-less hellos; a cookie-less hello naming a session the server has cached (its suite offered or not); a valid cookie presented with each covered field changed (version, random, session id, cipher suites, compression methods) or with the same bytes but a field boundary moved; every single-byte change (two masks), truncation, extension and removal of a valid cookie; the cookie replayed from another source address (second server connection with the same secret) and to a server with a different / per-connection random secret (no secret given as nil or as an empty slice; with a Config.Rand that returns short reads the secret is still drawn in full); positive controls (same address, hello and secret on a fresh server connection must be accepted and then touch the keys); x configured secret or none x ECC and ECDHE suite. Also: both server connections accepted from one dtlcp.NewListener over one Config without a secret (still one secret per connection); the valid cookie presented with a value appended to the suite list (0x00ff, an unknown value, 0) or to the compression list. distinct = distinct (variant, parameters); non-trivial = the server answered the hello under test"
+	return "enumerates hostile ClientHello behaviours against real DTLCP servers whose private keys are counting wrappers: repeated cookie-less hellos; a cookie-less hello naming a session the server has cached (its suite offered or not); a valid cookie presented with each covered field changed (version, random, session id, cipher suites, compression methods) or with the same bytes but a field boundary moved; every single-byte change (two masks), truncation, extension and removal of a valid cookie; the cookie replayed from another source address (second server connection with the same secret) and to a server with a different / per-connection random secret (no secret given as nil or as an empty slice; with a Config.Rand that returns short reads the secret is still drawn in full); positive controls (same address, hello and secret on a fresh server connection must be accepted and then touch the keys); x configured secret or none x ECC and ECDHE suite. Also: both server connections accepted from one dtlcp.NewListener over one Config without a secret (still one secret per connection); the valid cookie presented with a value appended to the suite list (0x00ff, an unknown value, 0) or to the compression list. Also two configured secrets of 48 bytes that differ only behind byte 32. distinct = distinct (variant, parameters); non-trivial = the server answered the hello under test"
 }
 func (c18) Components() (real, stub []string) {
 	return []string{"dtlcp server (instrumented): cookie generation / verification, cookie loop, certificate selection, key use"},
